@@ -34,6 +34,11 @@ CHECKS = {
     technique='exhaustive enumeration of batches (all item sequences up to length 3/4 over a 13/18-item alphabet x deviation-bounded header variants x initial stores) on the real session+engine with a batch model and a twin-engine differential oracle',
     text='Every sequence of 1..3 items over 13 (quick) / 18 (thorough, plus all length-4 sequences over 10) succeeding and failing batch items is sent as one request under every header variant with at most one deviation (two for length <= 2) from the default over batch-item-ID placement (all/none/missing on item k), error continuation option (absent/Stop/Continue/Undo), batch order option and initial store (Active key / Pre-Active key / empty). The response must be a prefix of the items in order with operation and ID echoed, stop at the first failure unless Continue, and carry a matching batch count; the final raw database must equal that of a twin engine to which only the successfully reported items were applied as single requests (placeholder substituted) and each reported result must equal the twin\'s - so a failed item left nothing, a reported success took full effect and no unreported item took effect.',
     note='os.urandom is replaced by a length-determined constant so batch and twin generate equal key material; logical clock. Request-level rejection is accepted for Undo and for a missing batch item ID only if nothing was executed.'),
+ 'C14': dict(
+    category='model_checking', design_ref='DESIGN.md 4/C14',
+    technique='exhaustive enumeration of Locate requests (ordered filter conjunctions x paging x requesters x versions) over store families built by real operations, against a reference matcher on an independent raw-SQLite snapshot',
+    text='Four store families (mixed types/owners/policies/states with ties and gaps in initial dates; the same without certificates/opaque objects; a store of keys in every lifecycle state; empty) are built through the real session+engine. Every ordered conjunction of 0, 1 and 2 filters from a 39-entry menu over exactly the attributes the statement lists (matching some / matching none / inapplicable values; repeated and reversed date filters), triples containing a date range in every position (more triples in thorough), is sent by three requesters (incl. a group identity) under KMIP 1.2 and 2.0. The result must equal the set computed by the reference matcher and reference access decision on a snapshot read directly from SQLite, be ordered newest first, and for conjunctions of <= 1 filter every one of 35 (offset, maximum) pairs must return exactly that slice of the unpaged list and pages of size 1 and 2 must partition it.',
+    note='Ties in initial date may come in any order (paging is compared with the unpaged answer of the same store). The Operation Policy Name filter is not sent under KMIP 2.0 because the codec refuses it. Stores are fixed families, not all stores.'),
 }
 
 NOT_YET = {}
